@@ -61,6 +61,7 @@ def run(tier):
     rule_R3l(res, prog)
     rule_R7(res, prog)
     rule_R8(res, prog)
+    rule_R10(res, prog)
     from rules.C17 import rule_R1w
     rule_R1w(res, prog, prop=PROP, rid="C02.R9")
     return res.finish()
@@ -760,3 +761,47 @@ def rule_R8(res, prog):
                                          fn.relfile, ln, fn.name, pp(nd)[:60], pp(strip(r["r"]))[:30]), file=fn.relfile, line=ln)
                     res.instance(rid, "%s:%s %s (%s)" % (fn.name, ln, pp(nd)[:60], why), ok, finding=f_)
     res.floor(rid, 3)
+
+
+def rule_R10(res, prog):
+    """Any modification of a protected record ends the session: RFC 8446 4.2.10 lets a server that rejected early data
+    *skip* records that fail to decrypt, but only until the handshake is over.  That window is opened by
+    extFlags.got_early_data; it is closed by tls13ClearHsState, so every place of the TLS 1.3 code that completes the
+    handshake (hsState = SSL_HS_DONE) calls it in the same basic block - and the function does clear the flags."""
+    from sa import cfgutil as cu
+    from sa.ir import walk
+    rid = "C02.R10"
+    res.rule(rid, "TLS 1.3: completing the handshake closes the window in which failed decryptions are ignored (tls13ClearHsState with every hsState = DONE)")
+    DONE = prog.const("SSL_HS_DONE")
+    clr = prog.fn("tls13ClearHsState")
+    clears = any(c.get("fn") in ("memset", "__builtin_memset", "__builtin___memset_chk") and c.get("a") and
+                 any(m.get("k") == "mem" and m.get("f") == "extFlags" for m in walk(c["a"][0])) for b, ln, c in clr.calls()) or \
+        any(n.get("k") == "bin" and n["op"] == "=" and (strip(n["l"]) or {}).get("f") == "got_early_data" and
+            (strip(n["r"]) or {}).get("k") == "int" and strip(n["r"])["v"] == 0 for b, ln, n in clr.nodes())
+    f_ = None
+    if not clears:
+        f_ = Finding(PROP, rid, clr.name, "tls13ClearHsState no longer clears the extension flags",
+                     "%s:%s tls13ClearHsState() does not reset ssl->extFlags (got_early_data): the `ignore failed decryption` window of "
+                     "the early-data rejection stays open after the handshake" % (clr.relfile, clr.line), file=clr.relfile, line=clr.line)
+    res.instance(rid, "tls13ClearHsState resets ssl->extFlags", clears, finding=f_)
+    n = 0
+    for fn in sorted(prog.functions.values(), key=lambda f: f.qname):
+        if not fn.blocks or not fn.relfile.startswith("matrixssl/tls13"):
+            continue
+        for b in fn.blocks:
+            items = cu.block_exprs(b)
+            for i, ln, x in items:
+                for nd in walk(x):
+                    if nd.get("k") == "bin" and nd["op"] == "=" and (strip(nd["l"]) or {}).get("f") == "hsState" and \
+                            (strip(nd["r"]) or {}).get("k") == "int" and strip(nd["r"])["v"] == DONE:
+                        n += 1
+                        ok = any(m.get("k") == "call" and m.get("fn") == "tls13ClearHsState" for i2, l2, x2 in items for m in walk(x2))
+                        f_ = None
+                        if not ok:
+                            f_ = Finding(PROP, rid, fn.name, "handshake completed without tls13ClearHsState",
+                                         "%s:%s %s(): hsState = SSL_HS_DONE without tls13ClearHsState in the same block: extFlags.got_early_data "
+                                         "survives the handshake, so a server that rejected early data keeps discarding records that fail to "
+                                         "decrypt (up to max_early_data bytes) instead of answering bad_record_mac - a tampered application "
+                                         "record is dropped silently and the session lives on" % (fn.relfile, ln, fn.name), file=fn.relfile, line=ln)
+                        res.instance(rid, "%s:%s hsState = DONE paired with tls13ClearHsState" % (fn.name, ln), ok, finding=f_)
+    res.floor(rid, 4)
